@@ -387,6 +387,7 @@ class _SutReferenceNormalizer(cst.CSTTransformer):
         self._module_alias = module_alias
         self._bindings: dict[str, _SutBinding] = {}
         self._replacements: dict[int, cst.BaseExpression] = {}
+        self._argument_keywords: set[int] = set()
 
     def _resolve(self, chain: list[str]) -> list[str] | None:
         root, *rest = chain
@@ -473,7 +474,15 @@ class _SutReferenceNormalizer(cst.CSTTransformer):
     ) -> cst.BaseExpression:
         return self._replacements.pop(id(original_node), updated_node)
 
+    def visit_Arg(self, node: cst.Arg) -> bool:  # noqa: N802
+        # The keyword of a call argument names a parameter, it is no reference.
+        if node.keyword is not None:
+            self._argument_keywords.add(id(node.keyword))
+        return True
+
     def visit_Name(self, node: cst.Name) -> bool:  # noqa: N802
+        if id(node) in self._argument_keywords:
+            return True
         replacement = self._resolve([node.value])
         if replacement is not None:
             self._replacements[id(node)] = _build_chain(replacement)
